@@ -370,13 +370,13 @@ SPEC = {
         "the census is syntactic: `panic!`, `unreachable!`/`unimplemented!`/`todo!`, `.unwrap()`, `.expect(`, `assert*!`, `debug_assert*!`, indexing/slicing "
         "`x[..]` after an identifier/`)`/`]`, and the binary operators - / % << >> (and their assigning forms) written with spaces, outside `#[cfg(test)]`; "
         "panics inside callees from other crates or std (e.g. `RefCell` borrows, `Rc::try_unwrap`, slice methods, `+`/`*` overflow, allocation failure) are not listed — "
-        "finding F35 (`num += 1`) is of that kind",
+        "the repaired finding F35 (`num += 1`) was of that kind",
         "a site counts as discharged by a theorem when the theorem is about the hand-written model of the stage (faithfulness of the models is the assumption of "
         "C05–C12, C32, checked there by differential runs) and, for `localguard`/`constant`, by reading the quoted guard; no Rust semantics is formalised",
         "the Terminals theorems (C32) the table refers to depend on bv_decide axioms (LRAT certificates checked by compiled code); they are listed in the evidence",
         "termination is not covered: all modelled loops take fuel; a hang is only detected by the exploration's time limit",
         "exploration covers only the generated and mutated texts of this run (deterministic per VERIF_SEED); harness built with debug assertions and overflow "
-        "checks ON for parol and its dependencies (some listed findings — F35, F36 — panic only in such builds)",
+        "checks ON for parol and its dependencies (finding F36 — and the repaired F35 — panic only in such builds)",
     ],
 }
 
@@ -393,7 +393,7 @@ CLAIM = {
             "Three chain links are not proved (Terminals limit — finding F10; tuple sets handed to `unite` are prefix-free/disjoint; minimisation). Everything "
             "else — PAR parser and actions, GrammarConfig::try_from, type deduction, symbol table, rendering, lalry, scnr2_generate, and the end-to-end statement "
             "for all byte strings — is EXPLORED only (real pipeline under catch_unwind on mutated/generated grammars). The full statement `NeverPanics` is not "
-            "proved and is false on the unchanged code: findings F10, F35, F36, F37 are reproduced on every run (F1 and F13, lalry's unreachable!(), have been repaired in parol and are kept as regression cases).",
+            "proved and is false on the unchanged code: findings F10 and F36 are reproduced on every run (F1, F13 — lalry's unreachable!() —, F35 and F37 have been repaired in parol and are kept as regression cases).",
     "design_ref": "DESIGN.md §6 C26",
     "note": "Category `exploration` because the property quantifies over all grammar texts and the whole pipeline, of which only the middle stages are modelled; the "
             "proved part is real but does not reach the property's statement. Trusted: Lean kernel (+ bv_decide axioms of the referenced C32 theorems), the "
